@@ -79,7 +79,7 @@ struct Shared {
   TransverseMercator tm{6378137.0, 1 / 298.257223563, 0.9996}; LambertConformalConic lcc{6378137.0, 1 / 298.257223563, 40.0, 50.0, 1.0};
   AlbersEqualArea alb{6378137.0, 1 / 298.257223563, 40.0, 50.0, 1.0}; LocalCartesian local{48.0, 2.0, 100.0};
   AuxLatitude aux{6378137.0, 1 / 298.257223563}; DAuxLatitude daux{6378137.0, 1 / 298.257223563}; EllipticFunction ef{0.3, 0.2};
-  vector<double> C, S; unique_ptr<SphericalHarmonic> sh; unique_ptr<CircularEngine> circ; unique_ptr<Geoid> geoid;
+  vector<double> C, S; unique_ptr<SphericalHarmonic> sh; unique_ptr<CircularEngine> circ; unique_ptr<Geoid> geoid, geoidl;
   AzimuthalEquidistant azeq{Geodesic::WGS84()}; Gnomonic gno{Geodesic::WGS84()}; CassiniSoldner cas{40.0, 10.0, Geodesic::WGS84()};
   DST dst{48};
   PolarStereographic ps{6378137.0, 1 / 298.257223563, 0.994}; TransverseMercatorExact tmx{6378137.0, 1 / 298.257223563, 0.9996};
@@ -92,7 +92,7 @@ struct Shared {
     mkdir(dir.c_str(), 0755);
     { ofstream f((dir + "/tsgeoid.pgm").c_str(), ios::binary); f << "P5\n# Offset -108\n# Scale 0.25\n36 19\n65535\n";
       for (int i = 0; i < 36 * 19; ++i) { unsigned v = unsigned((i * 7919) % 5000); f.put(char(v >> 8)); f.put(char(v & 255)); } }
-    geoid.reset(new Geoid("tsgeoid", dir, true, true));
+    geoid.reset(new Geoid("tsgeoid", dir, true, true)); geoidl.reset(new Geoid("tsgeoid", dir, false, true));
     write_models(dir); gm.reset(new GravityModel("tsg", dir)); mm.reset(new MagneticModel("tsm", dir));
     gc.reset(new GravityCircle(gm->Circle(30.0, 1000.0, GravityModel::ALL))); mc.reset(new MagneticCircle(mm->Circle(2003.0, 30.0, 1000.0)));
   }
@@ -138,6 +138,7 @@ static map<string, function<V(int)>> programs() {
   p["harmonic_obj"] = [](int i) { double gx, gy, gz; double v = (*G->sh)(7.0e6, 1.0e5 * (i + 1), 2.0e6, gx, gy, gz); return V{v, gx, gy, gz}; };
   p["circle_obj"] = [](int i) { double gx, gy, gz; double v = (*G->circ)(10.0 * i, gx, gy, gz); return V{v, gx, gy, gz}; };
   p["geoid_ts"] = [](int i) { return V{(*G->geoid)(40.0 + i, 10.0 * i), (*G->geoid)(-85.0, 179.0 + i), G->geoid->ConvertHeight(10.0, 20.0 + i, 100.0, Geoid::GEOIDTOELLIPSOID)}; };
+  p["geoid_ts_bilinear"] = [](int i) { return V{(*G->geoidl)(40.0 + 7 * i, 10.0 * i + 3), (*G->geoidl)(-85.0 + i, 179.0 + i), (*G->geoidl)(12.0 * i - 30, -77.0 + 31 * i), G->geoidl->ConvertHeight(10.0, 20.0 + 13 * i, 100.0, Geoid::GEOIDTOELLIPSOID)}; };
   p["utmups_fwd"] = [](int i) { int z; bool n; double x, y, la, lo; UTMUPS::Forward(40.0 + i, 10.0 * i, z, n, x, y); UTMUPS::Reverse(z, n, x, y, la, lo); int z2; bool n2; double x2, y2; UTMUPS::Forward(88.0, 10.0 * i, z2, n2, x2, y2); return V{double(z), double(n), x, y, la, lo, x2, y2}; };
   p["mgrs_fwd"] = [](int i) { string m; MGRS::Forward(31 + i, true, 5.0e5, 4.0e6 + 1000.0 * i, 5, m); int z, pr; bool n; double x, y; MGRS::Reverse(m, z, n, x, y, pr); return V{double(z), double(n), x, y, double(pr), double(m.size())}; };
   p["osgb_fwd"] = [](int i) { double x, y, la, lo; OSGB::Forward(52.0 + 0.1 * i, -1.0, x, y); OSGB::Reverse(x, y, la, lo); string g; OSGB::GridReference(x, y, 3, g); return V{x, y, la, lo, double(g.size())}; };
